@@ -29,6 +29,7 @@ type Expr struct {
 	Cls   string   `json:"cls"`
 	Tgt   *Expr    `json:"tgt"`
 	Chain bool     `json:"chain"` // layout only: render nested method calls as 以X（a）、（b）
+	Big   int      `json:"big"`   // a number literal of a SCALED program: the specification runs it with v, the interpreter with big
 }
 
 type Stmt struct {
@@ -148,6 +149,9 @@ func numText(v any) string {
 func E(e *Expr) string {
 	switch e.K {
 	case "num":
+		if e.Big != 0 {
+			return fmt.Sprint(e.Big)
+		}
 		return numText(e.V)
 	case "str":
 		return "“" + fmt.Sprint(e.V) + "”"
